@@ -32,7 +32,13 @@ def _pairs(tier, seed):
             if fam == "generic" and not cfg.startswith("G=") :
                 pass
             h = sum(map(ord, cfg))
-            if ("/" not in cfg) and (h + seed) % (9 if q else 3) != 0:
+            special = False
+            if fam == "generic" and "G" in prm:
+                # codes with unused (all-zero) or repeated coordinates have covering radius beyond n/2 and beyond t: never thinned
+                rows_ = C._detensor(prm["G"])
+                cols_ = [tuple(int(r_[j]) for r_ in rows_) for j in range(len(rows_[0]))]
+                special = len(rows_) <= 2 and (any(not any(c_) for c_ in cols_) or len(set(cols_)) <= len(rows_))
+            if ("/" not in cfg) and not special and (h + seed) % (9 if q else 3) != 0:
                 continue
         if "dtype" in prm and fam in ("bch", "hamming", "golay") and q and prm["dtype"] not in ("int64", "float16"):
             continue  # the encoders' dtype option: two dtypes in the quick tier, all six in the thorough tier
